@@ -155,9 +155,19 @@ func init() {
 				if len(ok) == 0 {
 					return nil
 				}
-				return []EntrySpec{{Name: "C02", Params: "n int", Body: fmt.Sprintf("hl.C02(G, vd.New, %s, %s, n, NSW)", names, ctors)}}
+				es := []EntrySpec{{Name: "C02", Params: "n int", Body: fmt.Sprintf("hl.C02(G, vd.New, %s, %s, n, NSW)", names, ctors)}}
+				if gg.OK("s") && len(gg.G.G.Rules) > 1 {
+					es = append(es, EntrySpec{Name: "C02Entry", Params: "n, rule int", Body: "hl.C02Entry(G, vd.New, vs.New, n, rule, NSW)"})
+				}
+				return es
 			},
-			Jobs:              func(gg *GenGrammar) []*Job { return lenJobs("C02", N) },
+			Jobs: func(gg *GenGrammar) []*Job {
+				jobs := lenJobs("C02", N)
+				for r := 1; r < len(gg.G.G.Rules); r++ {
+					jobs = append(jobs, lenJobs("C02Entry", N, r)...)
+				}
+				return jobs
+			},
 			BrokenIsViolation: true, ValidateEveryGrammar: validateEvery(c), Cfg: parserCfg(c),
 		}
 	}
